@@ -27,7 +27,7 @@ Ops == {<<"ann", "a=x">>, <<"ann", "a=y">>, <<"ann", "b=x">>, <<"ann", "a=">>,
         <<"layers", "l1">>, <<"layers", "l2">>, <<"layers", "l0">>,
         <<"mlist", "m1">>, <<"mlist", "m2">>, <<"mlist", "m1data">>, <<"mlist", "m1plat">>,
         <<"subject", "s1">>, <<"subject", "none">>,
-        <<"orig", "o1">>}
+        <<"orig", "o1">>, <<"orig", "o1badmt">>}   \* o1badmt: a struct that still carries another kind's media type
 Fields == {"ann", "config", "layers", "mlist", "subject"}
 \* the field(s) an accepted call may change
 Frame(op) == IF op[1] = "orig" THEN Fields ELSE {op[1]}
